@@ -459,7 +459,71 @@ def _strconfig_defaults():
     return f"(({bo(a[0])}, {bo(a[1])}), ({bo(cls['py2str_as_py3str'])}, {bo(cls['py3str_as_py2str'])}))"
 
 
+# ---- C09 / C14 : WorkerPool ---------------------------------------------------------------------
+
+
+def _stmts_under_lock(f: ast.AST, lockname="_running_lock"):
+    """source text of the statements inside `with self.<lock>` blocks of f"""
+    return [unparse(w) for w in _with_blocks(f, lockname)]
+
+
+@fact("pool_keep_pending", "bool", "false")
+def _pool_keep_pending():
+    """trigger_shutdown overwrites the primary-thread mailbox only when the ready event is NOT set"""
+    f = find("gateway_base.py", "WorkerPool.trigger_shutdown")
+    if len(_with_blocks(f, "_running_lock")) != 1:
+        raise ValueError("trigger_shutdown: lock block")
+    for n in ast.walk(f):
+        if isinstance(n, ast.If) and "self._primary_thread_task = None" in unparse(ast.Module(body=n.body, type_ignores=[])):
+            t = unparse(n.test)
+            return "true" if ("is_set()" in t and "not " in t) else "false"
+    raise ValueError("trigger_shutdown: mailbox assignment not found")
+
+
+@fact("pool_mailbox_first", "bool", "false")
+def _pool_mailbox_first():
+    """integrate_as_primary_thread: `if self._shuttingdown: break` is nested inside `if reply is self._primary_thread_task`"""
+    f = find("gateway_base.py", "WorkerPool.integrate_as_primary_thread")
+    ws = _with_blocks(f, "_running_lock")
+    if len(ws) != 1:
+        raise ValueError("integrate: lock block")
+    body = ws[0].body
+    ifs = [n for n in body if isinstance(n, ast.If)]
+    if len(ifs) == 1 and unparse(ifs[0].test) in ("reply is self._primary_thread_task", "self._primary_thread_task is reply"):
+        inner = unparse(ast.Module(body=ifs[0].body, type_ignores=[]))
+        if "if self._shuttingdown:\n    break" in inner and "primary_thread_task_ready.clear()" in inner:
+            return "true"
+    if len(ifs) == 2 and unparse(ifs[0].test) == "self._shuttingdown":
+        return "false"
+    raise ValueError("integrate: unrecognised locked section")
+
+
+@fact("pool_structure_ok", "bool", "false")
+def _pool_structure_ok():
+    """the atomicity the model builds in: spawn tests _shuttingdown, adds to _running and hands over under the lock;
+    _try_send writes the mailbox before it sets the event; _perform_spawn runs the task outside the lock and removes
+    + wakes the waitall events inside one locked section; waitall tests and registers under the lock and waits outside"""
+    sp = find("gateway_base.py", "WorkerPool.spawn")
+    w = _stmts_under_lock(sp)
+    ok = len(w) == 1 and all(x in w[0] for x in ("if self._shuttingdown", "self._running.add(reply)", "_try_send_to_primary_thread(reply)", "self.execmodel.start(self._perform_spawn"))
+    ts = unparse(find("gateway_base.py", "WorkerPool._try_send_to_primary_thread"))
+    i1, i2 = ts.find("self._primary_thread_task = reply"), ts.find("primary_thread_task_ready.set()")
+    ok = ok and 0 <= i1 < i2 and ts.count("self._primary_thread_task = reply") == 2 and "self._primary_thread_task.waitfinish()" in ts
+    ps = find("gateway_base.py", "WorkerPool._perform_spawn")
+    w = _stmts_under_lock(ps)
+    ok = ok and len(w) == 1 and "reply.run()" not in w[0] and "reply.run()" in unparse(ps) and "self._running.remove(reply)" in w[0] and "waitall_event.set()" in w[0]
+    ok = ok and unparse(ps).count("waitall_event.set()") == 1
+    wa = find("gateway_base.py", "WorkerPool.waitall")
+    w = _stmts_under_lock(wa)
+    ok = ok and len(w) == 1 and "if not self._running" in w[0] and "self._waitall_events.append(" in w[0] and ".wait(" not in w[0] and ".wait(timeout=timeout)" in unparse(wa)
+    rr = unparse(find("gateway_base.py", "Reply.run"))
+    ok = ok and "finally:" in rr and "self._result_ready.set()" in rr
+    return "true" if ok else "false"
+
+
 DIGESTS = [
+    ("gateway_base.py", "WorkerPool"),
+    ("gateway_base.py", "Reply"),
     ("gateway_base.py", "_Serializer"),
     ("gateway_base.py", "Unserializer"),
     ("gateway_base.py", "dumps"),
